@@ -426,12 +426,11 @@ pub fn read_sync_stub(store: &Store, last_id: Option<&Scru128Id>, limit: Option<
 //@@ from: for frame in store.read_sync(
 //@@ through_block
 //@@ rewrite: store.read_sync( ==> ! read_sync_stub(&store,
-//@@ after?: for frame in
-    it:
-//@@ before?: { if frame.topic
+//@@ for_name: for frame in
+//@@ loop_spec: for frame in
     invariant st.parts == old(st).parts, it.index@ <= reload_frames().len(),
         st.contexts == reload_ctx(old(st).contexts, reload_frames().take(it.index@ as int)), //# store.new.reload_registers_ctx_frames
-//@@ before_stmt?: if frame.topic
+//@@ loop_top: for frame in
     proof {
         assert(reload_frames().take(it.index@ as int + 1).drop_last() =~= reload_frames().take(it.index@ as int));
         assert(reload_frames().take(it.index@ as int + 1).last() == frame);
@@ -473,13 +472,14 @@ pub open spec fn head_gc_post(kvs_rev: Seq<Kv>, keep: u32, old_st: &St, new_st: 
 //@@ through_close
 //@@ inner
 //@@ closure_spec: .map( ==> -> (id: Scru128Id) requires $1 is Ok && kv_key($1).len() >= 16 ensures id_bytes(id) == last16(kv_key($1))
-//@@ before_stmt?: for frame_id in frames_to_remove
-    let ghost kvs: Seq<Kv> = choose|kvs: Seq<Kv>| is_scan(kvs, old(st).parts.idx_topic, |k: Seq<u8>| starts_with(k, topic_prefix(id_u128(context_id), vstd::utf8::encode_utf8(topic@))))
-        && victims_post(kvs.reverse(), keep, frames_to_remove@);
-    let ghost kvs_rev = kvs.reverse();
-//@@ after?: for frame_id in
-    it:
-//@@ before?: { let _ = store.remove(
+//@@ before_loop: for frame_id in
+    proof {
+        kvs = choose|kvs: Seq<Kv>| is_scan(kvs, old(st).parts.idx_topic, |k: Seq<u8>| starts_with(k, topic_prefix(id_u128(context_id), vstd::utf8::encode_utf8(topic@))))
+            && victims_post(kvs.reverse(), keep, frames_to_remove@);
+        kvs_rev = kvs.reverse();
+    }
+//@@ for_name: for frame_id in
+//@@ loop_spec: for frame_id in
     invariant store_wf(store), old(st).log.len() <= st.log.len(), old(st).errs <= st.errs, stream_wf(st),
         gc_scan(kvs, old(st), context_id, topic), kvs_rev == kvs.reverse(), victims_post(kvs_rev, keep, frames_to_remove@), //# store.gc_head.exact_prefix_keep_newest
         forall|k: Seq<u8>| #[trigger] st.parts.stream.contains_key(k) ==> old(st).parts.stream.contains_key(k) && st.parts.stream[k] == old(st).parts.stream[k],
@@ -487,9 +487,9 @@ pub open spec fn head_gc_post(kvs_rev: Seq<Kv>, keep: u32, old_st: &St, new_st: 
             ==> exists|j: int| keep as int <= j < keep as int + it.index@ && k == last16(kv_key(#[trigger] kvs_rev[j])), //# store.gc_head.exact_prefix_keep_newest
         no_storage_error(old(st), st) ==>
             forall|j: int| keep as int <= j < keep as int + it.index@ ==> !st.parts.stream.contains_key(last16(kv_key(#[trigger] kvs_rev[j]))), //# store.gc_head.exact_prefix_keep_newest
-//@@ before_stmt?: let _ = store.remove(
+//@@ loop_top: for frame_id in
     let ghost pre = *st;
-//@@ after?: let _ = store.remove(&frame_id);
+//@@ loop_end: for frame_id in
     proof {
         assert(frames_to_remove@[it.index@ as int] == frame_id);
         assert(id_bytes(frame_id) == last16(kv_key(kvs_rev[keep as int + it.index@])));
@@ -507,8 +507,10 @@ fn gc_head_arm(store: &Store, Tracked(st): Tracked<&mut St>, context_id: Scru128
         exists|kvs: Seq<Kv>| gc_scan(kvs, old(st), context_id, topic) && head_gc_post(kvs.reverse(), keep, old(st), final(st)), //# store.gc_head.exact_prefix_keep_newest
 {
     broadcast use axiom_key_bytes_refvec;
+    let ghost mut kvs: Seq<Kv> = Seq::empty();
+    let ghost mut kvs_rev: Seq<Kv> = Seq::empty();
 //@@ epilogue
-    proof { assert(gc_scan(kvs, old(st), context_id, topic) && head_gc_post(kvs.reverse(), keep, old(st), st)); }
+    proof { assert(gc_scan(kvs, old(st), context_id, topic) && head_gc_post(kvs.reverse(), keep, old(st), st)); } //# store.gc_head.exact_prefix_keep_newest
 }
 //@@ end
 
